@@ -3,7 +3,7 @@ from props import common
 
 FUNCS = ["pce500.scheduler:TimerScheduler.advance (loop rule, both while loops)", "TimerScheduler.__post_init__/reset/next_mti/next_sti setters",
          "pce500.emulator:PCE500Emulator.save_snapshot/load_snapshot (timer, cycle-counter and in-interrupt fields)",
-         "pce500.emulator:PCE500Emulator._tick_timers", "PCE500Emulator._set_isr_bits", "PCE500Emulator._simulate_wait (bounded)"]
+         "pce500.emulator:PCE500Emulator._tick_timers", "PCE500Emulator._set_isr_bits", "PCE500Emulator._simulate_wait (range rule: symbolic number of cycles)"]
 
 
 def run(prop, tier):
@@ -15,7 +15,8 @@ def run(prop, tier):
     reps += common.run_units("contracts.timers:unit_reset_setters", [dict(kind="reset-setters")], budget=120)
     reps += common.run_units("contracts.timers:unit_tick", [dict(kind="tick->ISR")], budget=300)
     reps += common.run_units("contracts.timers:unit_snapshot", [dict(kind="snapshot-restore", in_interrupt=False), dict(kind="snapshot-restore", in_interrupt=True)], budget=300)
-    ns = (1, 2, 3, 4) if tier == "quick" else (1, 2, 3, 4, 5, 6)
+    reps += common.run_units("contracts.timers:unit_wait_all", [dict(kind="wait-all"), dict(kind="wait-all", in_interrupt=True), dict(kind="wait-all", enabled=False)], budget=300)
+    ns = (1, 2, 3) if tier == "quick" else (1, 2, 3, 4, 5, 6)
     wait_units = [dict(n=n, kind="wait") for n in ns] + [dict(n=2, kind="wait", in_interrupt=True), dict(n=2, kind="wait", enabled=False)]
     bounded = common.run_units("contracts.timers:unit_wait", wait_units, budget=900)
     # the WAIT loop is a bounded stand-in: verdicts count, obligation numbers are reported separately
@@ -30,8 +31,8 @@ def run(prop, tier):
     v.obligations, v.discharged = before
     v.extra["bounded_obligations"] = dict(generated=nb, discharged=sum(r.get("proved", 0) for r in bounded),
                                           note="_simulate_wait for n in %s concrete cycles: bounded, not counted in obligations/discharged" % (list(ns),))
-    v.bounded = [dict(part="PCE500Emulator._simulate_wait", bound=f"n in {list(ns)} cycles, periods/targets/cycle base unbounded symbolic integers",
-                      note="bounded stand-in")]
+    v.bounded = [dict(part="PCE500Emulator._simulate_wait executed whole", bound=f"n in {list(ns)} cycles, periods/targets/cycle base unbounded symbolic integers",
+                      note="bounded companion of unit_wait_all (range rule, every n): also covers a rewritten WAIT loop that the rule no longer matches")]
     from props import rust_standin as RS
     vec = dict(timer=RS.timer_vectors(tier))
     res = RS.run(vec, ["timer"])
@@ -49,7 +50,9 @@ def run(prop, tier):
     ]
     v.samples = [dict(obligation="mti:fires-iff-due", statement="forall mti_period,next_mti,cycle in Z: MTI in advance(cycle) <=> enabled and mti_period > 0 and cycle >= next_mti"),
                  dict(obligation="loop0:inv-preserved", statement="Inv and cycle >= next_mti => Inv[next_mti += period, k+1]"),
+                 dict(obligation="range0:inv-preserved (wait)", statement="forall n, j < n, periods, targets, c0: Inv(j) => after one real loop body Inv(j+1), where Inv(j): cycle = c0+j, next_T = next_T0 + k_T*period_T > cycle, k_T = 0 or next_T - period_T <= cycle, #ISR updates of T = k_T"),
                  dict(obligation="cadence:exactly-one-period", statement="contract(advance) and target > cycle-1 and cycle >= target => target' = target + period")]
     rule = ("contract of TimerScheduler.advance discharged with the loop rule over unbounded integers (13 paths); cadence as a z3 lemma over that contract; "
-            "reset/setters; snapshot save/load round trip of the scheduler state; _tick_timers ISR mapping on a context stub; bounded per-cycle WAIT log")
+            "reset/setters; snapshot save/load round trip of the scheduler state; _tick_timers ISR mapping on a context stub; _simulate_wait for a symbolic number of cycles by the range rule "
+            "(invariant: #status-bit updates = #boundaries crossed, target = next boundary > cycle); bounded per-cycle WAIT log as companion")
     return v.finish(f"./check {prop} --tier {tier}", rule, tier)
